@@ -1,4 +1,6 @@
 import NbioVerif.Model.StopM
+import NbioVerif.Model.Lmux
+import NbioVerif.Model.HttpStop
 import NbioVerif.DrvCommon
 /-!
 stopdrv — runs the Stop model on the op lines of `hstop`.
@@ -13,14 +15,104 @@ engine-internal actions that are not behind a closed gate until none is left (th
 
 Real-engine cases (`C … real …`) are summarised by counts: `O activity opened=<n>` registers n conns, `O stop` runs
 Stop to completion.
+
+Listener-mux cases (`C … lmux maxa=<n>`) run `Model/Lmux.lean` (repaired Stop): `O dial` = accept + route,
+`O takeA|takeB got=<conn|err|closed|blocked>` = one consumer Accept (the annotation tells which `select` case Go
+picked when both were ready), `O dec` = one `Decrease` (if a conn handed out by A has not been accounted for yet),
+`O stop` = the whole of `ListenerMux.Stop`. Result line:
+
+    R qa=<queued in A> qb=<queued in B> online=<onlineA> ha=<handed by A> hb=<handed by B>[ got=<…>]
+
+HTTP-engine cases (`C … hsim io=<nb|blk>`) run `Model/HttpStop.lean` (repaired tree) against a real nbhttp engine with
+a gate in its `OnOpen` handler and a gate in its listener: `O conn gate=<0|1>` (a gated conn stays between the map
+insert and the rest of its add path until `O release`), `O peerclose <i>`, `O late` (the next conn is returned by
+`Accept` only after `shutdown` has been set), `O stop` / `O shutdown` (started in a goroutine), `O wait` (wait for it
+to return). After every op all enabled steps that are not behind a gate are applied. Result line:
+
+    R online=<len(engine.conns)> opens=<n> closes=<n> ret=<none|nil|ctx|hang>[ leak=<n>]
 -/
 open StopM
+
+/-- HTTP-engine case -/
+structure HsD where
+  s : HttpStop.St := {}
+  blk : Bool := false
+  gated : Option Nat := none     -- conn held inside `_onOpen`
+  late : Bool := false           -- the listener holds the next conn until Close
+  stuck : Bool := false          -- `wait` found Stop not returning
+
+namespace HsD
+open HttpStop
+
+def kind (d : HsD) : HttpStop.Kind := if d.blk then .blk else .nb
+
+/-- every step that can happen without the harness: conn steps (not the gated conn's add path), then Stop's own -/
+def cands (d : HsD) : List HttpStop.Act :=
+  let n := d.s.conns.length
+  let connActs := (List.range n).flatMap fun i =>
+    let always : List HttpStop.Act := [.conn i .runJob, .conn i .readerExit, .conn i .delFail]
+    if d.gated == some i then always
+    else always ++ [.conn i .insert, .conn i .userOpen, .conn i .coreOpen, .conn i (.coreReg true), .conn i .spawn]
+  connActs ++ (if d.s.sweeps == 0 || (d.s.graceful && HttpStop.online d.s > 0 && d.s.conns.any (fun c => c.inMap && !c.closed))
+               then [HttpStop.Act.sweep] else []) ++
+    ([.tick, .coreBegin, .coreWaited, .coreFinish] : List HttpStop.Act)
+
+def settle (d : HsD) : Nat → HsD
+  | 0 => d
+  | fuel + 1 =>
+    match (cands d).findSome? fun a => HttpStop.step HttpStop.fixed d.s a with
+    | some s' => settle { d with s := s' } fuel
+    | none => d
+
+def obs (d : HsD) : String :=
+  let s := d.s
+  let opens := (s.conns.map (·.opens)).foldl (· + ·) 0
+  let closes := (s.conns.map (·.closes)).foldl (· + ·) 0
+  let ret := if d.stuck then "hang" else match s.ret with | .none => "none" | .ok => "nil" | .ctxErr => "ctx"
+  s!"R online={HttpStop.online s} opens={opens} closes={closes} ret={ret}"
+
+def op (d : HsD) (ws : List String) : Option (HsD × String) :=
+  let acts (d : HsD) (as : List HttpStop.Act) : HsD := { d with s := HttpStop.run HttpStop.fixed d.s as }
+  let fin (d : HsD) : Option (HsD × String) :=
+    let d := settle d (60 * (d.s.conns.length + 4))
+    some (d, obs d)
+  match ws with
+  | "O" :: "conn" :: rest =>
+    let i := d.s.conns.length
+    if Drv.field rest "gate" == some "1" then fin { (acts d [.accept d.kind, .conn i .insert]) with gated := some i }
+    else fin (acts d [.accept d.kind])
+  | ["O", "release"] => fin { d with gated := none }
+  | ["O", "peerclose", i] => fin (acts d [.conn i.toNat! .close])
+  | ["O", "late"] => fin { d with late := true }
+  | "O" :: "stop" :: _ | "O" :: "shutdown" :: _ =>
+    let gr := ws[1]? == some "shutdown"
+    let d := acts d [.stopFlag gr]
+    let d := if d.late then acts d [.accept d.kind] else d
+    fin (acts d [.stopListeners])
+  | ["O", "wait"] =>
+    let d := settle d (60 * (d.s.conns.length + 4))
+    let d := if d.s.ret == .none && d.s.graceful then acts d [.ctxExpire] else d
+    let d := if d.s.ret == .none then { d with stuck := true } else d
+    let leak := (d.s.conns.filter fun c => c.ph == .refused && !c.closed).length
+    some (d, obs d ++ s!" leak={leak}")
+  | "Q" :: _ => fin d
+  | _ => none
+
+end HsD
+
+/-- listener-mux case: the model state and which consumers are blocked in `Accept` -/
+structure LmD where
+  s : Lmux.St
+  wa : Bool := false
+  wb : Bool := false
 
 structure DS where
   s : St
   heldOpen : List Nat
   heldClose : Bool
   real : Bool
+  lm : Option LmD := none
+  hs : Option HsD := none
 
 def gated (d : DS) : Act → Bool
   | .store c => d.heldOpen.contains c
@@ -73,6 +165,61 @@ def obs (d : DS) : String :=
 
 def fuelOf (d : DS) : Nat := 40 * (d.s.conns.length + 4) + 2 * d.s.asyncQ.length
 
+def gotName : Option (Lmux.Got × List Lmux.Ev) → String
+  | some (.conn _, _) => "conn"
+  | some (.err, _) => "err"
+  | some (.closed, _) => "closed"
+  | none => "blocked"
+
+/-- blocked consumers take what has become ready (`ra=` / `rb=`: what they got) -/
+def lmWake (d : LmD) : LmD × String :=
+  let (d, ra) :=
+    if d.wa then
+      match Lmux.take d.s.chClosed false d.s.chA with
+      | some r => ({ d with s := Lmux.run Lmux.fixed d.s [.takeA false], wa := false }, " ra=" ++ gotName (some r))
+      | none => (d, "")
+    else (d, "")
+  let (d, rb) :=
+    if d.wb then
+      match Lmux.take d.s.chClosed false d.s.chB with
+      | some r => ({ d with s := Lmux.run Lmux.fixed d.s [.takeB false], wb := false }, " rb=" ++ gotName (some r))
+      | none => (d, "")
+    else (d, "")
+  (d, ra ++ rb)
+
+def lmObs (d : LmD) : String :=
+  let s := d.s
+  let b (x : Bool) := if x then "1" else "0"
+  s!"R qa={s.chA.length} qb={s.chB.length} online={s.onlineA} ha={s.handedA.length} hb={s.handedB.length} wa={b d.wa} wb={b d.wb}"
+
+/-- one op of a listener-mux case: the new state and the result line -/
+def lmOp (d : LmD) (ws : List String) : Option (LmD × String) :=
+  let acts (d : LmD) (as : List Lmux.Act) : LmD := { d with s := Lmux.run Lmux.fixed d.s as }
+  let fin (d : LmD) (extra : String) : Option (LmD × String) :=
+    let (d, rel) := lmWake d
+    some (d, lmObs d ++ extra ++ rel)
+  let takeOp (isA : Bool) (rest : List String) : Option (LmD × String) :=
+    if (if isA then d.wa else d.wb) then fin d " got=blocked"
+    else
+      let gc := Drv.field rest "got" == some "closed"
+      let r := Lmux.take d.s.chClosed gc (if isA then d.s.chA else d.s.chB)
+      let d' := acts d [if isA then .takeA gc else .takeB gc]
+      let d' := if r.isNone then (if isA then { d' with wa := true } else { d' with wb := true }) else d'
+      some (d', lmObs d' ++ " got=" ++ gotName r)
+  match ws with
+  | ["O", "dial"] => fin (acts d [.accept, .route]) ""
+  | "O" :: "takeA" :: rest => takeOp true rest
+  | "O" :: "takeB" :: rest => takeOp false rest
+  | ["O", "dec"] => fin (acts d [.decrease]) ""
+  | ["O", "stop"] =>
+    -- Stop: close the real listener; the mux goroutine's Accept fails, an error event goes to both channels (a
+    -- blocked consumer gets it) and the goroutine returns; then chClose is closed and what is queued is closed
+    let (d1, r1) := lmWake (acts d [.stop, .route, .acceptErr])
+    let (d2, r2) := lmWake (acts d1 [.stopFinish])
+    some (d2, lmObs d2 ++ r1 ++ r2)
+  | "Q" :: _ => fin d ""
+  | _ => none
+
 partial def loop (h : IO.FS.Stream) (d : DS) : IO Unit := do
   let line ← h.getLine
   if line.isEmpty then return ()
@@ -81,10 +228,22 @@ partial def loop (h : IO.FS.Stream) (d : DS) : IO Unit := do
     let d := settle d (fuelOf d)
     IO.println (obs d)
     loop h d
+  if let (some hd, false) := (d.hs, ws.head? == some "C") then
+    match HsD.op hd ws with
+    | some (hd', out) => IO.println out; loop h { d with hs := some hd' }
+    | none => IO.println "bad-op"; loop h d
+  else
+  if let (some ls, false) := (d.lm, ws.head? == some "C") then
+    match lmOp ls ws with
+    | some (ls', out) => IO.println out; loop h { d with lm := some ls' }
+    | none => IO.println "bad-op"; loop h d
+  else
   match ws with
   | "C" :: rest =>
     IO.println "ok"
-    loop h { s := init, heldOpen := [], heldClose := false, real := rest.contains "real" }
+    let lm := if rest.contains "lmux" then some ({ s := Lmux.init (((Drv.field rest "maxa").map String.toNat!).getD 0) } : LmD) else none
+    let hs := if rest.contains "hsim" then some ({ blk := Drv.field rest "io" == some "blk" } : HsD) else none
+    loop h { s := init, heldOpen := [], heldClose := false, real := rest.contains "real", lm := lm, hs := hs }
   | ["O", "new"] =>
     let c := d.s.conns.length
     fin { (applyActs d [.new .transfer, .open c]) with heldOpen := c :: d.heldOpen }
